@@ -29,7 +29,8 @@ GNext ==
   \/ kind = "store" /\ DoStore(T) /\ Same /\ kind' = "none" /\ UNCHANGED script
   \/ kind \in {"put", "put2", "put3"} /\ \E len \in Lens : PutStart(T, len, nput + 1) /\ Count(TRUE) /\ L("put:" \o S(len))
   \/ kind = "putfail" /\ \E len \in Lens : PutFail(T, len) /\ Same /\ L("putfail:" \o S(len))
-  \/ kind \in {"consume", "consume2"} /\ \E g \in Groups : ConsumeStart(T, g) /\ Count(FALSE) /\ L("consume:" \o G(g))
+  \/ kind \in {"consume", "consume2"} /\ \E g \in Groups : g \in DOMAIN gm /\ gm[g].cons < mApp   \* (Consume BLOCKS on an empty queue: not drivable)
+                                                  /\ ConsumeStart(T, g) /\ Count(FALSE) /\ L("consume:" \o G(g))
   \/ kind \in {"ack", "ack2"} /\ \E g \in Groups : g \in DOMAIN gm /\ \E s \in ((gm[g].ack - 1)..(gm[g].cons + 1)) \cap Seqs : AckStart(T, g, s) /\ Count(FALSE) /\ L("ack:" \o G(g) \o ":" \o S(s))
   \/ kind = "setcons" /\ \E g \in Groups : (g \in DOMAIN gm /\ \E s \in gm[g].ack..mApp :
         SetConsumedStart(T, g, s) /\ Count(FALSE) /\ L("setcons:" \o G(g) \o ":" \o S(s)))
